@@ -4009,7 +4009,8 @@ class LoopNode(ActionSinkNode, ActionSourceNode):
             for trans in accept_state.transitions:
                 if trans.error_handling:
                     trans.handles_else(False).fallthrough().to(sub_dfa.starting_state).attach(*self.loop_start_actions)
-            if not accept_state.transitions:
+            if accept_state[DFTransition.Else] is None:
+                # no transitions at all, or only the continuation of a longer alternative (greedy case): everything else starts the next iteration
                 accept_state[DFTransition.Else] = DFTransition(fallthrough=True).to(sub_dfa.starting_state).attach(*self.loop_start_actions)
 
         for state in sub_dfa.states:
